@@ -608,6 +608,25 @@ E('eof_star', 'eof', r'''
 q
 ''')
 
+E('eof_x_unq', 'eof', r'''
+%x A Q
+%s B
+%%
+<A><<EOF>>
+<<EOF>>
+a
+<*>.|\n
+''')
+
+E('eof_x_none', 'eof', r'''
+%x Q
+%s B
+%%
+<INITIAL><<EOF>>
+<Q>q
+a
+''')
+
 # --- '|' action ---------------------------------------------------------------
 E('bar1', 'bar e1', r'''
 %%
